@@ -419,7 +419,19 @@ def r7(ctx, r):
              "responses leave in completion order, not request order" % maxw, okdesc="per-connection dispatch serialised (%s)" % (gate_fields or "single worker"))
 
 
+def anchors(ctx, r):
+    tab = [(fn(ctx, HS, "processHttpRequest", HSF), ["shouldCloseConnection", "connectionHeader", "connValue", "httpRes", "res", "req", "sendSucceeded", "errStatus"]),
+           (fn(ctx, HS, "handleIncomingData", HSF), ["requestData", "sid"]), (fn(ctx, HS, "invokeWithSafetyNet", HSF), ["res", "handler"])]
+    for f, names in tab:
+        common.require_names(f, names)
+        r.instance()
+        r.ok("%s: %s" % (last(f.name), ", ".join(names)))
+
+
 def run(ctx, ck):
+    r0 = ck.run_rule("C16-R0", "the local names the rules are anchored on exist (a rename makes the analysis refuse — exit 2 — instead of raising a false alarm)", "anchor table", lambda r: anchors(ctx, r))
+    if r0.broken:
+        return
     ck.run_rule("C16-R1", "at most one send command per request; every exit has sent, handed over or found the transport gone; every extracted request enqueued or 503", "A5 predicate abstraction with ghost send counter", lambda r: r1(ctx, r))
     ck.run_rule("C16-R2", "a response is one contiguous buffer: toWireFormat() of (status, headers, body), sent as serialised", "A10 dataflow shape", lambda r: r2(ctx, r))
     ck.run_rule("C16-R3", "Content-Length set by the server/response API is the size of the body on that path", "A10 dataflow + order", lambda r: r3(ctx, r))
